@@ -36,6 +36,25 @@ CHECKS["C03"] = dict(
     note="Oracle = ref/expand.py AND gcc -E (disagreements between the two are excluded and counted); one recorded finding (#__VA_ARGS__ comma spacing).",
 )
 
+CHECKS["C07"] = dict(
+    cat="exploration", ref="DESIGN.md §3 C07",
+    technique="exhaustive enumeration of platform-set tables (every table over the 8 subsets of 3 platforms with entries absent or from a count set, 4-platform 0/1 tables, huge counts, scalings) x every `platforms` argument and platform pair, against exact rational arithmetic",
+    text="Every table of the stated finite universe is evaluated by the real coverage / average_coverage / distance / divergence functions and by report.summary / report.clustering (printed lines), and compared with fractions.Fraction evaluation of the definitions, including NaN exactly when undefined and no exception.",
+    note="Floats compared to 1e-9 relative; printed %.2f values accepted if they are a correct rounding of the exact value; distance on the diagonal with no lines may be 0 or NaN.",
+)
+CHECKS["C09"] = dict(
+    cat="exploration", ref="DESIGN.md §3 C09",
+    technique="bounded-exhaustive enumeration of gitignore pattern lists (all lists of length <=2 over a 41-pattern pool, triples over sub-pools) x 44 path spellings on a feature-complete tree, against `git check-ignore --no-index` run in batch",
+    text="For every enumerated pattern list, `path in CodeBase` for every spelling (absolute, relative, '..', through file and directory links, dangling, outside) and list(CodeBase) must equal: existing regular file, recognised extension, under the root, not ignored by git on the resolved root-relative path.",
+    note="git 2.39 is the pattern oracle; one recorded third-party finding (pathspec re-inclusion below an excluded directory) attributed by predicate.",
+)
+CHECKS["C16"] = dict(
+    cat="exploration", ref="DESIGN.md §3 C16",
+    technique="exhaustive enumeration of all assignments of 5 pooled contents to 5 (quick) / 6 (thorough) files in two directories x 4 structural variants, against a direct byte-wise partition",
+    text="For every assignment report.find_duplicates (as a set of sets) and the printed duplicates report must equal the classes of size >= 2 of the byte-wise partition of the member non-link files; a watchdog turns non-termination into a violation.",
+    note="sha512 pre-filter not subverted; order of groups / of paths in a group is C14's business.",
+)
+
 PENDING = {}
 
 
